@@ -70,6 +70,11 @@ def reference(pa, rng):
         dur = rng.choice([0.5, 1, 2, 4.5, 7]) if not clicks else rng.choice([0.01, 0.02, 30, 45, 60])
         c.add(name, Segment(t, t + dur), rng.choice(LABELS[:rng.randint(1, 4)]))
         t += dur * rng.choice([0.5, 1, 1])
+    if rng.random() < 0.3:
+        # the same stretch of time annotated twice, with two categories (two units with one segment)
+        for u in rng.sample(list(c[name]), min(len(c[name]), rng.randint(1, 2))):
+            others = [x for x in LABELS if x != u.annotation]
+            c.add(name, u.segment, rng.choice(others))
     return c, name
 
 
